@@ -3,10 +3,12 @@
 RLIMIT = {}          # unit -> rlimit override
 DIVERGING = {'impl_RunState_rti'}  # rti is todo!(): diverges by design, its twin cannot fail
 
+ZERO_OBLIGATIONS_OK = {'RunState::rti'}   # body is a single diverging call; nothing to prove
+
 PROPS = {
     'C01': {
         'level': 'proof',
-        'kani': False,
+        'kani': True,
         'explanation': 'AsmLine::emit / bit_offs / ImmediateOrReg::bits / Flag::bits are proved equal to the ISA encoding '
                        'specification enc_spec for every statement kind, register, line and label line (Verus on the extracted '
                        'real text). Parser operand order, line numbering and backpatching are proved on a token-stream stand-in. '
@@ -15,7 +17,7 @@ PROPS = {
     },
     'C02': {
         'level': 'proof',
-        'kani': False,
+        'kani': True,
         'explanation': 'Every handler of RunState (add and br jmp jsr ld ldi ldr lea not st sti str stack push_val pop_val trap) and the '
                        'dispatch in execute are proved equal to step_spec — the ISA step oracle over the whole machine state (8 registers, '
                        '65536 memory words, PC, CC, orig, PSR), so the frame (nothing else changes) is part of every postcondition. '
